@@ -7,4 +7,12 @@ LEVEL = "proof"
 def contracts():
     from contracts import lemmas
 
-    return layouts.contracts() + [lemmas.permutation_contract()]
+    from contracts import errors, ivp, solvers
+
+    out = layouts.contracts() + [lemmas.permutation_contract()]
+    # pytree-structured states satisfy the same flat specification as array states (steps and error estimates)
+    for layout in ("dense", "isotropic", "blockdiag"):
+        out.append(solvers.step_contract(ivp.Cfg(layout, "mle", "filter", "ts1", q=1, d=2, pytree=True)))
+        out.append(solvers.step_contract(ivp.Cfg(layout, "dynamic", "fixedpoint", "ts0", q=1, d=2, pytree=True)))
+    out += [errors.estimator_contract(c) for c in errors.pytree_configs()]
+    return out
